@@ -37,6 +37,22 @@
 //! expressions are pressed (each in a fresh kanata) next to the OS-visible edges of the macro, in
 //! the middle of holds and after the macros ended. A key is active iff it is down in the OS model
 //! when the probe key arrives; fork, equivalent switch and model must agree.
+//!
+//! Action-kind dimension of the input tests (c10_inp.rs): `(input real K)` / `(input virtual V)` is
+//! true iff K / V is currently pressed - whatever K or V does. Five physical and three virtual
+//! subject keys get an action of one of 22 kinds (key code; mouse button / wheel / movement,
+//! caps-word, arbitrary-code, unicode, on-press / on-release / on-idle / hold-for-duration
+//! virtual-key actions, unmod / unshift, multi of customs, press-and-release driver of a subject
+//! virtual key - i.e. actions that are ONLY custom actions; multi of key + custom;
+//! layer-while-held / layer-toggle; macro-repeat; tap-hold / tap-hold-press / tap-hold-release /
+//! tap-dance / fork / switch ending in a custom action; XX, layer-switch, macro, output chord), are
+//! pressed, released and tapped (virtual keys by press / release / tap operations and through
+//! driver keys), and two switches are evaluated in that state, each on a physical or on a virtual
+//! key, possibly while a tap-hold / tap-dance of a subject is still undecided: one with one
+//! single-leaf case per subject (reads kanata's value of every leaf; a wrong leaf is reported with
+//! the input type and the action kind of the key in the signature) and one with and / or / not over
+//! the same leaves (plus input-history leaves aimed at the true slot where the press events are
+//! exactly the written history).
 
 #[path = "c10_model.rs"]
 mod model;
@@ -48,6 +64,8 @@ mod age;
 mod late;
 #[path = "c10_macro.rs"]
 mod mac;
+#[path = "c10_inp.rs"]
+mod inp;
 
 use crate::core::rng::Rng;
 use crate::core::{CaseOut, Check, Ctx};
@@ -719,12 +737,17 @@ fn n_macro(ctx: &Ctx) -> u64 {
     ctx.tier.sel(600, 8_000)
 }
 
+/// end-to-end scenarios asking (input ..) about keys of every action kind (c10_inp.rs); two probes each
+fn n_inp(ctx: &Ctx) -> u64 {
+    ctx.tier.sel(5_000, 60_000)
+}
+
 impl Check for C10Check {
     fn id(&self) -> &'static str {
         "C10"
     }
     fn n_cases(&self, ctx: &Ctx) -> u64 {
-        exh_layout(ctx).cases + 1 + n_random(ctx) + n_e2e(ctx) + age::n_cases(ctx) + n_e2e_long(ctx) + n_late(ctx) + n_macro(ctx)
+        exh_layout(ctx).cases + 1 + n_random(ctx) + n_e2e(ctx) + age::n_cases(ctx) + n_e2e_long(ctx) + n_late(ctx) + n_macro(ctx) + n_inp(ctx)
     }
     fn describe(&self, ctx: &Ctx, idx: u64) -> Value {
         let ne = exh_layout(ctx).cases;
@@ -743,8 +766,10 @@ impl Check for C10Check {
             e2e::describe_long(ctx, idx - ne - 1 - n_random(ctx) - n_e2e(ctx) - age::n_cases(ctx))
         } else if idx < ne + 1 + n_random(ctx) + n_e2e(ctx) + age::n_cases(ctx) + n_e2e_long(ctx) + n_late(ctx) {
             late::describe(ctx, idx - ne - 1 - n_random(ctx) - n_e2e(ctx) - age::n_cases(ctx) - n_e2e_long(ctx))
-        } else {
+        } else if idx < ne + 1 + n_random(ctx) + n_e2e(ctx) + age::n_cases(ctx) + n_e2e_long(ctx) + n_late(ctx) + n_macro(ctx) {
             mac::describe(ctx, idx - ne - 1 - n_random(ctx) - n_e2e(ctx) - age::n_cases(ctx) - n_e2e_long(ctx) - n_late(ctx))
+        } else {
+            inp::describe(ctx, idx - ne - 1 - n_random(ctx) - n_e2e(ctx) - age::n_cases(ctx) - n_e2e_long(ctx) - n_late(ctx) - n_macro(ctx))
         }
     }
     fn run_case(&self, ctx: &Ctx, idx: u64) -> CaseOut {
@@ -764,13 +789,15 @@ impl Check for C10Check {
             e2e::run_long(&mut out, ctx, idx - ne - 1 - n_random(ctx) - n_e2e(ctx) - age::n_cases(ctx));
         } else if idx < ne + 1 + n_random(ctx) + n_e2e(ctx) + age::n_cases(ctx) + n_e2e_long(ctx) + n_late(ctx) {
             late::run(&mut out, ctx, idx - ne - 1 - n_random(ctx) - n_e2e(ctx) - age::n_cases(ctx) - n_e2e_long(ctx));
-        } else {
+        } else if idx < ne + 1 + n_random(ctx) + n_e2e(ctx) + age::n_cases(ctx) + n_e2e_long(ctx) + n_late(ctx) + n_macro(ctx) {
             mac::run(&mut out, ctx, idx - ne - 1 - n_random(ctx) - n_e2e(ctx) - age::n_cases(ctx) - n_e2e_long(ctx) - n_late(ctx));
+        } else {
+            inp::run(&mut out, ctx, idx - ne - 1 - n_random(ctx) - n_e2e(ctx) - age::n_cases(ctx) - n_e2e_long(ctx) - n_late(ctx) - n_macro(ctx));
         }
         out
     }
     fn rule(&self) -> String {
-        "Direct part: configuration text rendered from the harness's own expression tree is parsed by the real parser; the Action::Switch found in the layout is evaluated through Switch::actions (whole case list, and every case alone through a one-case Switch) and compared with a recursive evaluator. Exhaustive and seed-independent: every list of or/and/not trees (arity >= 1) of total size <= 7 quick / 8 thorough over leaves {a,b,c}, <= 6 / 7 over three two-word leaves {(input real a),(input-history virtual vk1 2),(base-layer l1)}, <= 6 / 7 over {a,(layer l1),(key-timing 2 gt 2304)}, each under all 8 truth assignments; every break/fallthrough pattern x truth pattern of case lists up to length 5. Random: 3 switches per case with 1-16 cases, expressions up to depth 8 and ~120 nodes, all ten item kinds, two-word items at every position, thresholds on every compression edge, 48/96 random states each with history ages placed on q(t)-1, q(t), q(t)+1. End-to-end part: a real Kanata is driven through Sim into a state (held keys, released keys, virtual keys, held and switched layers, gaps placed on threshold edges), the switch or fork key is pressed and the witness keys appearing at the OS are compared with the model (up to 8 firing cases exactly; above 8 only 'no non-firing case performed'). Old-history-entry families (end-to-end, real ticks): systematic and seed-independent - recency 1..=8 x {newer entries typed after the long gap, all entries typed before it (several entries beyond the counter range at once), thorough also: an even older entry and a first long gap before the referenced key} x 38 quick / 63 thorough ages of the referenced entry (5000, 32767..32769, 65407/65408, every tick 65530..=65545, 65536+{199,200,201,1000,1001,2303,2304}, 70000, 100000, 131071..131073, 131222, 196611, 200000, ...) x 4 threshold triples {0,200,1000} {5,2303,30000} {12,65407,65534} {1,32767,65535}, each threshold as lt and as gt case plus (key-history k n), (input-history real k n+1), (key-timing 1 ..), (key-timing n+1 ..) and an and/not combination on the same history; random - 2000 quick / 30000 thorough scenarios of the ordinary end-to-end generator (timing-heavy leaves, thresholds 0..65535) in which one or two gaps anywhere in the history are longer than 65535 ticks, aimed so that the entry a key-timing leaf refers to is 65530..65545 or 65536*k + {q(t)-1, q(t), q(t)+1, 0..9, random} ticks old (k = 1..3). Violations found when a key-timing leaf refers to an entry older than 65535 ticks carry their own signature suffix. Late-evaluation family (end-to-end, 6000 quick / 80000 thorough scenarios, 14 kinds in rotation): a settled prelude (plain keys, virtual keys, layer-while-held, optionally a complete v1 chord of 2 or 3 keys) followed by an episode in which the switch is evaluated while presses are unprocessed: tap action of tap-hold / tap-hold-release (1-4 presses, releases and virtual-key presses of other keys during the undecided period, gaps 0..20 ticks, deciding release possibly in the same tick), hold action of tap-hold by timeout, of tap-hold-press by a burst of 1-3 presses, of tap-hold-release by press + release of another key, first action of a tap-dance ended by a burst of presses, action of a defchords chord of 2 (with a 3-key superset) or 3 keys in any order, action of a defchordsv2 chord, the plain switch key after an earlier chord, after a held-back defchordsv2 participant (with further presses behind it), and inside a burst of up to 8 events without a tick in between (before and behind it); after the last press only releases and time follow until the switch has acted. The switch has 1-6 random cases plus an always-true last case over (input-history real|virtual k r) items (3/4 aimed at or next to the true slot), (input ..), bare keys, layer items and and/or/not to depth 6; the reference state is the list of press events in arrival order. Macro family (end-to-end, 600 quick / 8000 thorough scenarios x up to 8 probe offsets x 3 probe keys): one or two macros (macro / macro-release-cancel) built from output-chord-prefixed groups (1-2 of S- C- A- RS- M-, nested to depth 2) around taps of x / y and delays 5..200, released early or late, optionally lsft/lctl/... also held by a plain key, a multi or a virtual key (sometimes let go while the macro runs); probes: a fork tree of depth <= 2 with 1-3 trigger keys per fork, the switch equivalent to it (one breaking case per leaf), a switch of 1-5 random cases of and/or/not over key names and (input real a|b); probe offsets: 3 within -3..+2 ticks of an OS-visible edge of the macro, up to 3 inside holds, one random, one after the macros ended; every probe runs in a fresh kanata, a dry run without probe supplies the edges. Non-trivial = a case/scenario that was evaluated; distinct = exhaustive chunk, or set of item kinds (random), or scenario class (e2e), or (layout, recency, threshold set) / (recency, comparison) of an old entry (age families), or (kind, earlier chord, presses while unprocessed, events in the same tick) (late family), or (probe kind, during/after the macro, named key held only by a macro, result decided by it) (macro family).".into()
+        "Direct part: configuration text rendered from the harness's own expression tree is parsed by the real parser; the Action::Switch found in the layout is evaluated through Switch::actions (whole case list, and every case alone through a one-case Switch) and compared with a recursive evaluator. Exhaustive and seed-independent: every list of or/and/not trees (arity >= 1) of total size <= 7 quick / 8 thorough over leaves {a,b,c}, <= 6 / 7 over three two-word leaves {(input real a),(input-history virtual vk1 2),(base-layer l1)}, <= 6 / 7 over {a,(layer l1),(key-timing 2 gt 2304)}, each under all 8 truth assignments; every break/fallthrough pattern x truth pattern of case lists up to length 5. Random: 3 switches per case with 1-16 cases, expressions up to depth 8 and ~120 nodes, all ten item kinds, two-word items at every position, thresholds on every compression edge, 48/96 random states each with history ages placed on q(t)-1, q(t), q(t)+1. End-to-end part: a real Kanata is driven through Sim into a state (held keys, released keys, virtual keys, held and switched layers, gaps placed on threshold edges), the switch or fork key is pressed and the witness keys appearing at the OS are compared with the model (up to 8 firing cases exactly; above 8 only 'no non-firing case performed'). Old-history-entry families (end-to-end, real ticks): systematic and seed-independent - recency 1..=8 x {newer entries typed after the long gap, all entries typed before it (several entries beyond the counter range at once), thorough also: an even older entry and a first long gap before the referenced key} x 38 quick / 63 thorough ages of the referenced entry (5000, 32767..32769, 65407/65408, every tick 65530..=65545, 65536+{199,200,201,1000,1001,2303,2304}, 70000, 100000, 131071..131073, 131222, 196611, 200000, ...) x 4 threshold triples {0,200,1000} {5,2303,30000} {12,65407,65534} {1,32767,65535}, each threshold as lt and as gt case plus (key-history k n), (input-history real k n+1), (key-timing 1 ..), (key-timing n+1 ..) and an and/not combination on the same history; random - 2000 quick / 30000 thorough scenarios of the ordinary end-to-end generator (timing-heavy leaves, thresholds 0..65535) in which one or two gaps anywhere in the history are longer than 65535 ticks, aimed so that the entry a key-timing leaf refers to is 65530..65545 or 65536*k + {q(t)-1, q(t), q(t)+1, 0..9, random} ticks old (k = 1..3). Violations found when a key-timing leaf refers to an entry older than 65535 ticks carry their own signature suffix. Late-evaluation family (end-to-end, 6000 quick / 80000 thorough scenarios, 14 kinds in rotation): a settled prelude (plain keys, virtual keys, layer-while-held, optionally a complete v1 chord of 2 or 3 keys) followed by an episode in which the switch is evaluated while presses are unprocessed: tap action of tap-hold / tap-hold-release (1-4 presses, releases and virtual-key presses of other keys during the undecided period, gaps 0..20 ticks, deciding release possibly in the same tick), hold action of tap-hold by timeout, of tap-hold-press by a burst of 1-3 presses, of tap-hold-release by press + release of another key, first action of a tap-dance ended by a burst of presses, action of a defchords chord of 2 (with a 3-key superset) or 3 keys in any order, action of a defchordsv2 chord, the plain switch key after an earlier chord, after a held-back defchordsv2 participant (with further presses behind it), and inside a burst of up to 8 events without a tick in between (before and behind it); after the last press only releases and time follow until the switch has acted. The switch has 1-6 random cases plus an always-true last case over (input-history real|virtual k r) items (3/4 aimed at or next to the true slot), (input ..), bare keys, layer items and and/or/not to depth 6; the reference state is the list of press events in arrival order. Macro family (end-to-end, 600 quick / 8000 thorough scenarios x up to 8 probe offsets x 3 probe keys): one or two macros (macro / macro-release-cancel) built from output-chord-prefixed groups (1-2 of S- C- A- RS- M-, nested to depth 2) around taps of x / y and delays 5..200, released early or late, optionally lsft/lctl/... also held by a plain key, a multi or a virtual key (sometimes let go while the macro runs); probes: a fork tree of depth <= 2 with 1-3 trigger keys per fork, the switch equivalent to it (one breaking case per leaf), a switch of 1-5 random cases of and/or/not over key names and (input real a|b); probe offsets: 3 within -3..+2 ticks of an OS-visible edge of the macro, up to 3 inside holds, one random, one after the macros ended; every probe runs in a fresh kanata, a dry run without probe supplies the edges. Action-kind family of the input tests (end-to-end, 5000 quick / 60000 thorough scenarios, two probes each): 5 physical + 3 virtual subject keys whose actions are drawn from 22 kinds (key code; mouse button incl. tap variants, mouse wheel, mouse movement / speed, caps-word / caps-word-toggle, arbitrary-code, unicode, on-press / on-release / on-idle / on-idle-fakekey / hold-for-duration virtual-key actions, unmod / unshift, multi of two custom actions, a key that presses a subject virtual key while held; multi of key code + custom; layer-while-held / layer-toggle; macro-repeat; tap-hold / tap-hold-press / tap-hold-release / tap-dance / fork / switch whose outcome is a custom action; XX, layer-switch, macro, output chord), at least two subjects with an action that is only a custom action; history of 2-10 steps (press, release, tap of physical subjects; press / release / tap operations on virtual subjects; gaps 3..60 ticks), final gap 3..20 ticks or long enough for everything to settle, half of the scenarios with deciding actions end with a press of such a key 3..28 ticks before the probe; probe 1 = switch with one ((input real|virtual K)) case per subject (8 fallthrough cases), probe 2 = switch of 1-6 random cases of and/or/not to depth 5 over (input ..) leaves on the subjects and, where no subject action presses virtual keys on its own, (input-history ..) leaves (2/3 aimed at the true slot, 1/6 next to it); each probe on a physical key (2/3) or a virtual key (1/3), waited for until all undecided actions and queued events are through. Expected: probe 1 performs exactly the cases of the subjects that are down, in order; probe 2 performs what the model evaluates from the down set (if probe 1 misjudged a leaf, probe 2 may instead agree with the model fed with probe 1's leaf values - the leaf is reported once, a disagreement with both is a composition violation). Non-trivial = a case/scenario that was evaluated; distinct = exhaustive chunk, or set of item kinds (random), or scenario class (e2e), or (layout, recency, threshold set) / (recency, comparison) of an old entry (age families), or (kind, earlier chord, presses while unprocessed, events in the same tick) (late family), or (probe kind, during/after the macro, named key held only by a macro, result decided by it) (macro family), or (input type, action kind) of a subject that is down at the probe (action-kind family).".into()
     }
     fn assumptions(&self) -> Vec<String> {
         vec![
@@ -782,6 +809,8 @@ impl Check for C10Check {
             "in the stepper every t:N really advances N layout ticks; the running program stops ticking while kanata is idle, so history entries older than 65535 ticks arise there only while something keeps kanata non-idle (or a large key-timing threshold keeps it ticking) - the property is about what the switch does with the state it is given, so these states are generated regardless of how likely they are".into(),
             "late-evaluation family: (input-history ..) is judged against the arrival order of ALL press events (real keys and virtual-key presses) that arrived before the switch was evaluated, whether or not kanata had processed them; to make 'before the evaluation' independent of kanata's timing, nothing but releases and time follows the last press of a scenario until the first action of the switch is out (a scenario in which no action of the switch appears after the last press - the waiting action resolved differently than intended - is counted as late_unjudged_* and not judged). Consequently recency 1 is the activating key only if nothing was pressed after it; the guide's 'recency 1 is the input activating switch itself' describes that ordinary case. In these scenarios (input real k) / (input virtual v) and bare key names are only asked about keys that are pressed or released in the settled prelude and not touched afterwards (whether a key whose press or release is still queued counts as 'currently pressed' is not decided by the guide), key-history / key-timing are not used (the order of kanata's own outputs is exactly what is delayed), events may arrive without a tick in between".into(),
             "macro family: a bare key name in fork / switch is active iff the OS model (built from kanata's own output events) has the key down when the probe key arrives - for keys held by physical keys, multi, virtual keys and running macros alike; a probe is not judged (macro_probe_unjudged_named_key_changes_during_processing) if one of the keys named by the probed fork / switch goes down or up at the OS between the arrival of the probe key and the tick in which its first action comes out (1-2 ticks), because the order of macro step and key processing inside one tick is not specified; the timeline of the macro is observed, not modelled".into(),
+            "action-kind family: (input real K) is true iff the press event of K arrived and its release event did not (yet) - 'currently pressed', 'checks against the defsrc inputs' - and (input virtual V) is true iff V was pressed (press-vkey / a press operation) and not released since (a tap leaves it inactive); this does not depend on the action of K / V. Judged only when nothing but time follows the last event before the probe and the probe is given time for every undecided tap-hold / tap-dance and every queued event to go through first (so the probe sees the settled state; with a driver key in the configuration the final gap is long enough for the virtual-key press it causes to be processed before the probe arrives). On the unchanged tree the test is false for a pressed key whose action is XX, layer-switch, macro or an output chord (known findings C10:inp:pressed-key-not-seen:{real,virtual}:{noop,layer-switch,macro,output-chord}, findings/C10-input-test-blind-to-stateless-actions.md); every other kind is live. Not asked about (the guide does not decide): one-shot keys (they stay active after their release on purpose), keys that undo other keys' state (release-key, release-layer, macro-release-cancel - the latter also ends a held macro-repeat), sequence leader, dynamic macro record / play, cmd, clipboard, live reload, the probe keys themselves".into(),
+            "action-kind family: (input-history ..) leaves are only generated where the list of press events equals the written history (no subject action that presses virtual keys on its own); slot 1 is the probe key of the complex switch, slot 2 the probe key of the single-leaf switch".into(),
             "virtual key name -> coordinate is taken from Cfg.fake_keys in the direct part and checked by really pressing the virtual keys in the end-to-end part".into(),
         ]
     }
@@ -860,6 +889,65 @@ impl Check for C10Check {
             ("macro_probe_release_cancel_variant", ctx.tier.sel(500, 6_500)),
             ("macro_fork_right", ctx.tier.sel(700, 9_000)),
             ("macro_fork_left", ctx.tier.sel(700, 9_000)),
+            // action-kind dimension of the input tests (c10_inp.rs)
+            ("inp_scenarios", ctx.tier.sel(5_000, 60_000)),
+            ("inp_direct_probes_judged", ctx.tier.sel(5_000, 60_000)),
+            ("inp_complex_probes_judged", ctx.tier.sel(5_000, 60_000)),
+            ("inp_direct_probe_on_virtual_key", ctx.tier.sel(1_200, 15_000)),
+            ("inp_direct_probe_on_physical_key", ctx.tier.sel(2_500, 30_000)),
+            ("inp_complex_probe_on_virtual_key", ctx.tier.sel(1_200, 15_000)),
+            ("inp_down_real_key_whose_only_action_is_custom", ctx.tier.sel(4_000, 50_000)),
+            ("inp_down_virtual_key_whose_only_action_is_custom", ctx.tier.sel(2_000, 25_000)),
+            ("inp_released_real_key_whose_only_action_is_custom", ctx.tier.sel(900, 11_000)),
+            ("inp_released_virtual_key_whose_only_action_is_custom", ctx.tier.sel(800, 10_000)),
+            ("inp_down_real_key_of_deciding_action_ending_in_custom", ctx.tier.sel(1_000, 12_000)),
+            ("inp_down_virtual_key_of_deciding_action_ending_in_custom", ctx.tier.sel(450, 5_500)),
+            ("inp_down_real_key_of_other_non_key_action", ctx.tier.sel(1_200, 15_000)),
+            ("inp_down_virtual_key_of_other_non_key_action", ctx.tier.sel(600, 7_500)),
+            ("inp_down_real_key", ctx.tier.sel(300, 3_600)),
+            ("inp_down_real_mouse-button", ctx.tier.sel(500, 6_000)),
+            ("inp_down_real_mouse-wheel", ctx.tier.sel(300, 3_600)),
+            ("inp_down_real_mouse-move", ctx.tier.sel(300, 3_600)),
+            ("inp_down_real_caps-word", ctx.tier.sel(300, 3_600)),
+            ("inp_down_real_arbitrary-code", ctx.tier.sel(300, 3_600)),
+            ("inp_down_real_unicode", ctx.tier.sel(300, 3_600)),
+            ("inp_down_real_vkey-action", ctx.tier.sel(220, 2_700)),
+            ("inp_down_real_unmod", ctx.tier.sel(170, 2_000)),
+            ("inp_down_real_multi-custom", ctx.tier.sel(200, 2_400)),
+            ("inp_down_real_multi-key-custom", ctx.tier.sel(180, 2_200)),
+            ("inp_down_real_vkey-press-release", ctx.tier.sel(260, 3_000)),
+            ("inp_down_real_layer-while-held", ctx.tier.sel(170, 2_000)),
+            ("inp_down_real_macro-repeat", ctx.tier.sel(90, 1_000)),
+            ("inp_down_real_tap-hold-to-custom", ctx.tier.sel(330, 4_000)),
+            ("inp_down_real_tap-dance-to-custom", ctx.tier.sel(110, 1_300)),
+            ("inp_down_real_fork-to-custom", ctx.tier.sel(180, 2_200)),
+            ("inp_down_real_switch-to-custom", ctx.tier.sel(180, 2_200)),
+            ("inp_down_real_noop", ctx.tier.sel(170, 2_000)),
+            ("inp_down_real_layer-switch", ctx.tier.sel(170, 2_000)),
+            ("inp_down_real_macro", ctx.tier.sel(170, 2_000)),
+            ("inp_down_real_output-chord", ctx.tier.sel(170, 2_000)),
+            ("inp_down_virtual_key", ctx.tier.sel(150, 1_800)),
+            ("inp_down_virtual_mouse-button", ctx.tier.sel(270, 3_200)),
+            ("inp_down_virtual_mouse-wheel", ctx.tier.sel(160, 1_900)),
+            ("inp_down_virtual_mouse-move", ctx.tier.sel(150, 1_800)),
+            ("inp_down_virtual_caps-word", ctx.tier.sel(170, 2_000)),
+            ("inp_down_virtual_arbitrary-code", ctx.tier.sel(160, 1_900)),
+            ("inp_down_virtual_unicode", ctx.tier.sel(150, 1_800)),
+            ("inp_down_virtual_vkey-action", ctx.tier.sel(160, 1_900)),
+            ("inp_down_virtual_unmod", ctx.tier.sel(100, 1_200)),
+            ("inp_down_virtual_multi-custom", ctx.tier.sel(100, 1_200)),
+            ("inp_down_virtual_multi-key-custom", ctx.tier.sel(100, 1_200)),
+            ("inp_down_virtual_layer-while-held", ctx.tier.sel(100, 1_200)),
+            ("inp_down_virtual_macro-repeat", ctx.tier.sel(40, 500)),
+            ("inp_down_virtual_tap-hold-to-custom", ctx.tier.sel(140, 1_700)),
+            ("inp_down_virtual_tap-dance-to-custom", ctx.tier.sel(50, 600)),
+            ("inp_down_virtual_fork-to-custom", ctx.tier.sel(100, 1_200)),
+            ("inp_down_virtual_switch-to-custom", ctx.tier.sel(100, 1_200)),
+            ("inp_virtual_key_held_through_driver_key", ctx.tier.sel(280, 3_400)),
+            ("inp_probe_arrives_while_a_subject_action_is_undecided", ctx.tier.sel(250, 3_000)),
+            ("inp_complex_some_case_fired", ctx.tier.sel(3_000, 36_000)),
+            ("inp_complex_result_depends_on_down_key_whose_only_action_is_custom", ctx.tier.sel(900, 11_000)),
+            ("inp_complex_input_history_leaf_true_on_key_without_key_code_action", ctx.tier.sel(1_200, 14_000)),
         ]
     }
     fn exhaustive(&self, _ctx: &Ctx) -> bool {
